@@ -196,6 +196,9 @@ func (s *shard) enabled(m *model) []int {
 			if o.csel == cPivot && t.kind == kPivotList {
 				continue // identical to cFinal
 			}
+			if o.csel == cFinalFailed && t.kind != kMemFile {
+				continue // only the chunk job has a failure form of its final reply here
+			}
 			en = append(en, i)
 		}
 	}
@@ -293,7 +296,7 @@ func (s *shard) apply(w *world, m *model, o op, check bool) (res stepOut) {
 	}
 	pk := packet(o.csel, t.kind, x, t.id)
 	outstanding := a.find(t.id) >= 0
-	matchedFinal := outstanding && (o.csel == cFinal || (o.csel == cPivot && t.kind == kPivotList))
+	matchedFinal := outstanding && (o.csel == cFinal || o.csel == cFinalFailed || (o.csel == cPivot && t.kind == kPivotList))
 	dontCare := outstanding && !matchedFinal && (o.csel == cCross || o.csel == cPivot)
 	allowed := outstanding || exempt(pk.Cmd, s.sendLogs)
 	beforeHandout := a.queue > 0
